@@ -175,8 +175,9 @@ def _one(acc, cfg, order, ra, dec, L, chunk, sep=None):
 LENGTHS = [1.0 / 3600.0, 0.01, 0.1, 1.0, 5.0, 15.0, 30.0]
 Q_LEN = {'equator': [0.01, 5.0], 'seam': [1.0 / 3600.0, 1.0], 'npole': [0.1, 15.0], 'spole': [1.0, 30.0],
          'mid60': [0.1, 15.0], 'mid-75': [0.01, 5.0], 'allsky': [5.0, 30.0]}
-T_CF = [None, 1.0, 4.0, 4.5, 8.0, 20.0]
-Q_CF = [None, 4.5]
+T_CF = [None, 1.0, 2.0, 4.0, 4.5, 8.0, 20.0]
+Q_CF = [None, 2.0, 4.5]
+CLAMPED = (1.0, 2.0)      # chunk sizes below 4 L: the code clamps them to 4 L (same computation as cf=4), smaller alphabet
 CHAIN_SCENES = ['equator', 'seam', 'mid60', 'mid-75', 'npole', 'spole']
 DIRS = ['ra', 'dec', 'diag']
 
@@ -194,7 +195,7 @@ def tasks(tier):
             if S.scene_sites(scene, L, nA) is None:
                 continue
             for cf in (T_CF if T else Q_CF):
-                t.append({'layer': 'A', 'scene': scene, 'L': L, 'cf': cf, 'n': nA})
+                t.append({'layer': 'A', 'scene': scene, 'L': L, 'cf': cf, 'n': 5 if cf in CLAMPED else nA})
     for scene in CHAIN_SCENES:
         for d in (DIRS if scene not in ('npole', 'spole') else ['over-pole']):
             for L in (LENGTHS if T else [0.01, 1.0, 15.0]):
